@@ -545,6 +545,20 @@ func (u *Unit) evalBinary(st *State, x *ast.BinaryExpr) Val {
 	T := u.typeOf(x)
 	switch x.Op {
 	case token.EQL, token.NEQ:
+		// arrays compare by content
+		if at, ok := a.T.Underlying().(*types.Array); ok && a.Kind == KScalar && b.Kind == KScalar && isArrayT(b.T) && at.Len() <= 64 && !isSliceT(at.Elem()) && !isStructVal(at.Elem()) {
+			ca := u.elemArray(st, at.Elem(), a.S)
+			cb := u.elemArray(st, at.Elem(), b.S)
+			var cs []Term
+			for i := int64(0); i < at.Len(); i++ {
+				cs = append(cs, tEq(tSel(ca, tInt(i)), tSel(cb, tInt(i))))
+			}
+			t := tAnd(cs...)
+			if x.Op == token.NEQ {
+				t = tNot(t)
+			}
+			return boolVal(t)
+		}
 		// interface/pointer/struct comparisons are reference comparisons in the model
 		if a.Kind == KScalar && b.Kind == KScalar && isStructVal(a.T) && isStructVal(b.T) {
 			u.note("abstracted", "struct value comparison "+exprStr(u.eng.fset, x))
